@@ -1,0 +1,11 @@
+//go:build verif
+
+// Contracts for the deductive verification in /verif (comment-only; compiled code is unaffected).
+package checker
+
+//@ iface Service.Check(self, ctx, credentials, account, operation)
+//@ flag noalloc
+//@ modifies checkedset
+//@ ensures [recorded] result ==> credentials != nil && (credentials.Client + "|" + account + "|" + operation) in checkedset
+//@ ensures [monotone] forall k string :: old(k in checkedset) ==> k in checkedset
+//@ ensures [onlythis] !result ==> checkedset == old(checkedset)
